@@ -8,7 +8,7 @@ from lib.coqterm import cbool, cN, cZ, cbytes, clist, copt, cpair
 
 ID = "C44"
 QUICK_N = 800
-THOROUGH_N = 9000
+THOROUGH_N = 6400
 SHARD = 70
 COQ_PRELUDE = "From MV Require Import Model.OptManager.\n"
 RULE = ("80% histories of 4-14 calls on one real OptManager over a universe of 6 option names and 7 typespecs "
